@@ -118,10 +118,61 @@ def judge(c):
     r = tool.convert(c["text"], **c["opts"])
     if not r.ok:
         return None
+    return judge_text(r.text)
+
+
+def cli_cases(run, scratch):
+    """the same interface rules on what the command line writes, for every subset of its flags"""
+    import importlib
+    import io
+    import itertools
+    import sys
+    m = importlib.import_module("coco.decb_to_b09")
+    d = os.path.join(scratch, "cli14")
+    os.makedirs(d, exist_ok=True)
+    text = '10 CLS 3:PLAY "CDE":HSCREEN 2:HBUFF 1,10:HGET(0,0)-(9,9),1\n20 A$=STR$(INT(1.5)):PRINT A$;HEX$(2):SOUND 1,1\n'
+    out = []
+    for k in range(0, 6):
+        for flags in itertools.combinations(["-l", "-z", "-w", "-D", "-s"], k):
+            argv = []
+            for f in flags:
+                argv += [f, "80"] if f == "-s" else [f]
+            run.states += 1
+            run.transitions += 1
+            run.evaluations += 1
+            inp, outp = os.path.join(d, "prog.bas"), os.path.join(d, "prog.b09")
+            with open(inp, "w") as f:
+                f.write(text)
+            old = sys.stdout, sys.stderr
+            err = None
+            try:
+                sys.stdout, sys.stderr = io.StringIO(), io.StringIO()
+                try:
+                    m.start(argv + [inp, outp])
+                except SystemExit as e:
+                    err = f"SystemExit({e.code})"
+                except Exception as e:  # noqa
+                    err = type(e).__name__
+            finally:
+                sys.stdout, sys.stderr = old
+            if err:
+                continue
+            got = open(outp, "r", newline="").read().replace("\r\n", "\n").replace("\r", "\n")
+            if "-D" in flags:
+                # without the bundle the text has no procedure header: give the parser one
+                got = "procedure prog\n" + got
+            v = judge_text(got)
+            if isinstance(v, list):
+                for sym, detail in v:
+                    out.append((sym, f"decb_to_b09 {' '.join(argv)}: {detail}", list(argv)))
+    return out
+
+
+def judge_text(text):
     try:
-        procs = S.parse(r.text)
+        procs = S.parse(text)
     except S.B09SyntaxError:
-        return fallback_runs(r.text) or "unparsable"
+        return fallback_runs(text) or "unparsable"
     out = []
     for p in procs:
         sc = T.Scope(p)
@@ -219,6 +270,13 @@ def run(run):
                 if m:
                     f.add("callee:" + m.group(1).lower())
                 run.violation(sym, f, {"text": c["text"], "opts": c["opts"], "origin": c["origin"]}, f"{c['origin']}: {detail}\nsource: {c['text']!r}")
+    seen_cli = set()
+    for sym, detail, argv in cli_cases(run, run.scratch_dir()):
+        if (sym, tuple(argv)) in seen_cli:
+            continue
+        seen_cli.add((sym, tuple(argv)))
+        f = {"cli"} | ({"uses-joystk"} if "ecb_joystk" in detail else set())
+        run.violation(sym, f, {"cli": argv}, detail)
     run.distinct_n = len(keys)
 
 
